@@ -316,6 +316,7 @@ pub mod prim {
         #[verifier::external_body]
         pub fn world_set_parent_id(&mut self, value: &ItemRef, parent: Option<usize>)
             ensures final(self).ident == old(self).ident, final(self).children@ == old(self).children@,
+                    final(self).attributes@ == old(self).attributes@, final(self).order@ == old(self).order@,
                     final(self).parent_of@ == old(self).parent_of@.insert(value.ident, parent),
         { unimplemented!() }
 
@@ -529,16 +530,18 @@ def build():
         ensures=[('C14:answers_the_last_item_of_the_subtree_in_document_order',
                   'r == (if self.children@.len() > 0 { self.children@.last().subtree@.last() } else { self.ident })')])
     fns['element_append_attribute'] = Fn(
-        FI, 'impl XmlElement', 'append_attribute', props=['C14'], safety_props=['C14'], sig_rules=[PUB, Rule('R11', r'Rc<XmlItem>', 'ItemRef', 'Rc<XmlItem> -> environment handle (A4)')],
+        FI, 'impl XmlElement', 'append_attribute', props=['C14', 'C12'], safety_props=['C14'], sig_rules=[PUB, Rule('R11', r'Rc<XmlItem>', 'ItemRef', 'Rc<XmlItem> -> environment handle (A4)')],
         label='XmlElement::append_attribute',
         rules=[Rule('R43', r'attr\.init_order_recursive\(\);', 'self.world_init_order_recursive(&attr);', 'the attribute is numbered in the SAME document order vector: made explicit on the receiver'),
                Rule('R43', r'attr\.place_subtree_after\(id\);', 'self.world_place_subtree_after(&attr, id);', 'same'),
+               Rule('R43', r'attr\.set_parent_id\(Some\(self\.id\(\)\)\);', 'let __me = self.id(); self.world_set_parent_id(&attr, Some(__me));', 'the owner link lives in the shared world: made explicit on the receiver'),
                Rule('R46', r'self\.attributes\.iter\(\)\.max_by_key\(\|v\| v\.order\(\)\)', 'shim_max_by_order(&self.attributes)', 'iter().max_by_key(order) -> shim')],
         requires=[('attributes_are_well_formed', 'forall|i: int| 0 <= i < old(self).attributes@.len() ==> (#[trigger] old(self).attributes@[i]).wf()'),
                   ('the_element_is_numbered', 'old(self).order@.contains(old(self).ident)')],
         ensures=[('C14:the_new_attribute_is_numbered_after_the_last_attribute_before_the_children',
                   'exists|a: usize| attribute_anchor(*old(self), a) && (old(self).order@.contains(a) && !attr.subtree@.contains(a) && old(self).order@.no_duplicates() && attr.subtree@.no_duplicates() ==> final(self).order@ == crate::placed_after(old(self).order@, a, attr.subtree@))'),
-                 ('listed', 'final(self).attributes@ == old(self).attributes@.push(attr)')],
+                 ('listed', 'final(self).attributes@ == old(self).attributes@.push(attr)'),
+                 ('C12:the_attribute_names_the_element_as_its_owner', 'final(self).parent_of@.dom().contains(attr.ident) && final(self).parent_of@[attr.ident] == Some(old(self).ident)')],
         inject=[(r'self\.world_place_subtree_after\(&attr, id\);', 'proof { assert(attribute_anchor(*old(self), id)); }', 'before optional')])
     fns['element_delete_by_id'] = Fn(
         FI, 'impl HasChildren for XmlElement', 'delete_by_id', props=['C12'], safety_props=['C12'], sig_rules=SRP, label='XmlElement::delete_by_id',
